@@ -67,6 +67,9 @@ META["rule"] += (
 META["rule"] += (
     " " + 'Added after the fifth round: node lists of the two-group measures in any order, the twin anywhere in its list; nsi_spreading() and nsi_spreading(alpha=0.3) on undirected graphs (node-weight dynamic range <= 1e4, rtol 1e-6); half of the cross-checked originals carry two or three link attributes, all read back from splitted_copy().')
 
+META["rule"] += (
+    " " + 'Added after the sixth round: a quarter of the originals are built from a scipy matrix (half of those with explicitly stored zeros); a quarter of the attributed originals have a copy() taken and given other link and node weights before the comparison.')
+
 # typical weights: chosen so that the corrected degree k/tw - 1 (a factor of
 # the corrected clustering denominators) cannot vanish exactly for integer
 # or split-integer node weights - at such points the measure is 0/0
@@ -215,7 +218,18 @@ def relation(kind, x0, x1, v, n, rtol, natural=0.0):
     raise ValueError(kind)
 
 
-def mk(cls, A, w, W, directed):
+def mk(cls, A, w, W, directed, form="dense"):
+    if form != "dense":
+        # the adjacency in a sparse form a caller may hold it in; "zeros":
+        # with explicitly stored zeros (entries cleared in place, e.g. a
+        # link removed by S[i, j] = 0): they are not links
+        import scipy.sparse as sp
+        n = len(A)
+        if form == "zeros":
+            rr, cc = np.nonzero(np.ones_like(A) - np.eye(n, dtype=A.dtype))
+            A = sp.csr_matrix((A[rr, cc], (rr, cc)), shape=(n, n))
+        else:
+            A = sp.csr_matrix(A)
     net = cls(adjacency=A, directed=directed, node_weights=w,
               silence_level=3)
     if W is not None:
@@ -260,7 +274,23 @@ def one_split(ctx, Network, A, w, W, directed, v, p, cid, measures,
                 n0.set_link_attribute("w", W)
             ctx.count("originals_used_before")
         else:
-            n0 = mk(Network, A, w, W, directed)
+            form = str(ru.choice(["dense", "dense", "csr", "zeros"]))
+            if form != "dense" and n >= 2:
+                ctx.count("original_from_sparse:" + form)
+            n0 = mk(Network, A, w, W, directed, form if n >= 2 else "dense")
+        if W is not None and ru.random() < 0.25:
+            # a copy of the original is taken and given other link weights
+            # (and node weights) after keyed measures were queried: the
+            # original is not the copy
+            keyed_ = [x for x in measures if "key" in x[1]]
+            for mm, kw, _, need in keyed_[:2]:
+                ctx.call(getattr(n0, mm), **kw)
+            okc, work = ctx.call(n0.copy)
+            if okc:
+                ctx.call(work.set_link_attribute, "w",
+                         (W * 2.0 + 1.0) * (A != 0))
+                work.node_weights = np.asarray(w) * 1.5 + 0.25
+                ctx.count("copies_changed_afterwards")
         n1 = mk(Network, A2, w2, W2, directed)
         ctx.count("split_pairs")
         Wb = None
